@@ -23,6 +23,10 @@ import (
 type Token struct {
 	Abort bool
 	Sel   uint32 // rotation for Select polling order
+	// Stall: the goroutine does not get a processor for that long (simulated time) although
+	// it could run - preemption, GC, CPU starvation, a suspended VM - and then waits to be
+	// scheduled again
+	Stall time.Duration
 }
 
 type gstate int
@@ -52,6 +56,8 @@ type G struct {
 	// measured scheduler-induced lateness).
 	ParkedAt time.Time
 	Steps    int
+	// StalledNs: simulated time spent in scheduler-imposed stalls
+	StalledNs time.Duration
 	// unchecked > 0: the goroutine is inside a monitor's read of library state
 	// (Unchecked): no scheduling points, no lockset bookkeeping
 	unchecked int
@@ -89,6 +95,7 @@ type Run struct {
 	byName   map[string]*G
 	Arrival  chan struct{}
 	AbortCh  chan struct{}
+	stalled  int
 	aborting bool
 	live     int
 	// statistics
@@ -343,6 +350,29 @@ func (r *Run) park(g *G, point string, need *Mutex) {
 		g.abort = true
 		runtime.Goexit()
 	}
+	if tok.Stall > 0 {
+		t := time.NewTimer(tok.Stall)
+		r.mu.Lock()
+		g.state = gBlocked
+		g.Point = point + ":stalled"
+		r.stalled++
+		r.mu.Unlock()
+		select {
+		case <-t.C:
+		case <-r.AbortCh:
+			g.abort = true
+			runtime.Goexit()
+		}
+		r.mu.Lock()
+		r.stalled--
+		g.state = gRunning
+		g.StalledNs += tok.Stall
+		if tok.Stall > r.MaxParked {
+			r.MaxParked = tok.Stall
+		}
+		r.mu.Unlock()
+		r.park(g, point, need)
+	}
 }
 
 // Yield is a scheduling point.
@@ -579,6 +609,25 @@ func Go(point string, f func()) {
 	name := g.Name + "/" + strconv.Itoa(g.spawn)
 	r.mu.Unlock()
 	r.Spawn(name, f)
+}
+
+// Stalled: how many goroutines sit out a stall right now.
+func (r *Run) Stalled() int {
+	r.mu.Lock()
+	defer r.mu.Unlock()
+	return r.stalled
+}
+
+// StalledNs: the simulated time the calling goroutine has been stalled by the scheduler so far.
+func StalledNs() time.Duration {
+	r := current()
+	if r == nil {
+		return 0
+	}
+	if g := r.self(); g != nil {
+		return g.StalledNs
+	}
+	return 0
 }
 
 // Runnable returns the parked goroutines that may proceed, sorted by name.
